@@ -12,8 +12,10 @@ CONSTANTS ShiftAbs,   \* angle shifts (grid steps, both signs) that are generate
 
 Shifts == ShiftAbs \cup {-x : x \in ShiftAbs}
 
-VARIABLES iv
-vars == <<iv>>
+VARIABLES iv,      \* the interval
+          act      \* history: the operation that produced it (hidden by VIEW; read by StepImage)
+vars == <<iv, act>>
+View == iv
 
 PState(I) == [k |-> "plain", s |-> I.s, e |-> I.e]
 AState(A) == [k |-> "angle", a |-> A.a, len |-> A.len]
@@ -21,9 +23,10 @@ PI == [s |-> iv.s, e |-> iv.e]
 AI == [a |-> iv.a, len |-> iv.len]
 
 (* construction in two steps (start, then end), so that the first level of the search already has many states *)
-Init == iv \in {[k |-> "start", kind |-> "plain", s |-> s] : s \in PVals}
-            \cup {[k |-> "start", kind |-> "angle", s |-> a] : a \in AStarts}
-Construct == /\ iv.k = "start"
+Init == /\ iv \in {[k |-> "start", kind |-> "plain", s |-> s] : s \in PVals}
+                 \cup {[k |-> "start", kind |-> "angle", s |-> a] : a \in AStarts}
+        /\ act = [k |-> "init"]
+Construct == /\ iv.k = "start" /\ act' = [k |-> "construct"]
              /\ IF iv.kind = "plain"
                 THEN \E e \in PVals : ExpConstruct(iv.s, e).res = "ok" /\ iv' = PState([s |-> iv.s, e |-> e])   \* start > end: rejected
                 ELSE \E len \in ALens : iv' = AState([a |-> iv.s, len |-> len])
@@ -31,13 +34,14 @@ Construct == /\ iv.k = "start"
 (* a result in fine units that is again an interval of the universe *)
 Rep(R)     == R.res = "ok" /\ R.s % 50 = 0 /\ R.e % 50 = 0 /\ (R.s \div 50) \in PVals /\ (R.e \div 50) \in PVals
 ToState(R) == [k |-> "plain", s |-> R.s \div 50, e |-> R.e \div 50]
-Add        == iv.k = "plain" /\ \E op \in AddOps   : LET R == ExpOp(PI, op) IN Rep(R) /\ iv' = ToState(R)
-Sub        == iv.k = "plain" /\ \E op \in SubOps   : LET R == ExpOp(PI, op) IN Rep(R) /\ iv' = ToState(R)
-Mul        == iv.k = "plain" /\ \E op \in MulOps   : LET R == ExpOp(PI, op) IN Rep(R) /\ iv' = ToState(R)
-Div        == iv.k = "plain" /\ \E op \in DivOps   : LET R == ExpOp(PI, op) IN Rep(R) /\ iv' = ToState(R)
-Round      == iv.k = "plain" /\ \E op \in RoundOps : LET R == ExpOp(PI, op) IN Rep(R) /\ iv' = ToState(R)
-Intersect  == iv.k = "plain" /\ \E J \in PIntervals : LET R == ExpIntersection(PI, J) IN Rep(R) /\ iv' = ToState(R)
-AngleShift == iv.k = "angle" /\ \E x \in Shifts : iv' = AState(ExpAngleShift(AI, x))
+Add        == iv.k = "plain" /\ \E op \in AddOps   : LET R == ExpOp(PI, op) IN Rep(R) /\ iv' = ToState(R) /\ act' = op
+Sub        == iv.k = "plain" /\ \E op \in SubOps   : LET R == ExpOp(PI, op) IN Rep(R) /\ iv' = ToState(R) /\ act' = op
+Mul        == iv.k = "plain" /\ \E op \in MulOps   : LET R == ExpOp(PI, op) IN Rep(R) /\ iv' = ToState(R) /\ act' = op
+Div        == iv.k = "plain" /\ \E op \in DivOps   : LET R == ExpOp(PI, op) IN Rep(R) /\ iv' = ToState(R) /\ act' = op
+Round      == iv.k = "plain" /\ \E op \in RoundOps : LET R == ExpOp(PI, op) IN Rep(R) /\ iv' = ToState(R) /\ act' = op
+Intersect  == iv.k = "plain" /\ \E J \in PIntervals : LET R == ExpIntersection(PI, J)
+                                                      IN Rep(R) /\ iv' = ToState(R) /\ act' = [k |-> "intersect", J |-> J]
+AngleShift == iv.k = "angle" /\ \E x \in Shifts : iv' = AState(ExpAngleShift(AI, x)) /\ act' = [k |-> "angle_shift", x |-> x]
 Next == Construct \/ Add \/ Sub \/ Mul \/ Div \/ Round \/ Intersect \/ AngleShift
 Spec == Init /\ [][Next]_vars
 
@@ -69,17 +73,17 @@ InvAngleShift        == IsA => LawAngleShift(AI, (-2 * Turn)..(2 * Turn))
 InvAngleOverlaps     == IsA => LawAngleOverlaps(AI, {J \in AIntervals : J.a \in 0..(Turn - 1)} \cup JsFor(AI))
 
 (* ---- law along transitions: the successor is the image set, with start <= end ---- *)
-StepOK(I, R) ==
-  IF I.k = "start"
-  THEN IF I.kind = "plain" THEN R.k = "plain" /\ R.s = I.s /\ R.s <= R.e ELSE R.k = "angle" /\ R.a = I.s /\ R.len \in ALens
-  ELSE IF I.k = "plain"
-  THEN /\ R.k = "plain" /\ R.s <= R.e
-       /\ LET P == [s |-> I.s, e |-> I.e]  Rf == Ok(Fine(R.s), Fine(R.e))
-          IN \/ \E op \in AddOps \cup SubOps \cup MulOps \cup DivOps \cup RoundOps : ImageOK(P, op, Rf)
-             \/ \E J \in PIntervals : H([s |-> R.s, e |-> R.e]) = H(P) \cap H(J)
-  ELSE /\ R.k = "angle" /\ R.len >= 0 /\ InDomain([a |-> R.a, len |-> R.len])
-       /\ \E x \in Shifts : ASetT[[a |-> R.a, len |-> R.len]] = {(p + 2 * x) % T2 : p \in ASetT[[a |-> I.a, len |-> I.len]]}
-StepImage == [][StepOK(iv, iv')]_vars
+StepOK(I, op, R) ==
+  CASE op.k = "construct" ->
+         IF I.kind = "plain" THEN R.k = "plain" /\ R.s = I.s /\ R.s <= R.e ELSE R.k = "angle" /\ R.a = I.s /\ R.len \in ALens
+    [] op.k \in {"add", "sub", "mul", "div", "round"} ->
+         R.k = "plain" /\ R.s <= R.e /\ ImageOK([s |-> I.s, e |-> I.e], op, Ok(Fine(R.s), Fine(R.e)))
+    [] op.k = "intersect" ->
+         R.k = "plain" /\ R.s <= R.e /\ H([s |-> R.s, e |-> R.e]) = H([s |-> I.s, e |-> I.e]) \cap H(op.J)
+    [] op.k = "angle_shift" ->
+         /\ R.k = "angle" /\ R.len >= 0 /\ InDomain([a |-> R.a, len |-> R.len])
+         /\ ASetT[[a |-> R.a, len |-> R.len]] = {(p + 2 * op.x) % T2 : p \in ASetT[[a |-> I.a, len |-> I.len]]}
+StepImage == [][StepOK(iv, act', iv')]_vars
 
 (* ---- generation: one case per interval, with the argument domains of every operation ---- *)
 HQueries == {2 * x : x \in -(K + 2)..(K + 2)}
